@@ -7,6 +7,8 @@ Runs in a separate interpreter process with PYTHONPATH=<repo>; imports nothing f
 """
 import ast, copy, random, struct as _struct, sys, traceback, bisect, importlib, os, json
 
+copy._deepcopy_dispatch[_struct.Struct] = copy._deepcopy_atomic     # immutable, not picklable
+
 UNDEF = object()
 QDOMAIN = range(-1, 24)      # domain of unbounded integer quantifiers (bounded approximation)
 
@@ -47,11 +49,11 @@ MACROS = None
 class CEval:
     """concrete evaluation of a contract expression"""
 
-    def __init__(self, env, olds=None, fresh_ids=None, snapshots=None):
+    def __init__(self, env, olds=None, fresh_ids=None, snapshots=None, bound=None):
         self.env = env
-        self.olds = olds            # dict id(node)->value for old(...) sub-expressions; None while collecting
-        self.collect = None
+        self.olds = olds            # deep copy of the environment taken before the call (None: no pre-state)
         self.snapshots = snapshots or {}
+        self.bound = bound or {}
 
     def ev(self, n):
         return getattr(self, 'e_' + type(n).__name__)(n)
@@ -162,10 +164,9 @@ class CEval:
         if f == 'old':
             if self.olds is None:
                 raise Undefined('old outside post-state')
-            v = self.olds.get(id(n), UNDEF)
-            if v is UNDEF:
-                raise Undefined('old value undefined')
-            return v
+            memo = self.olds.get('__memo__', {})
+            tr = {k: memo.get(id(v), v) for k, v in self.bound.items()}
+            return CEval(dict(self.olds, **tr), None, snapshots=self.snapshots, bound=tr).ev(n.args[0])
         if f in ('forall', 'exists'):
             lam = n.args[-1]
             names = [a.arg for a in lam.args.args]
@@ -176,7 +177,8 @@ class CEval:
                 doms = [QDOMAIN] * len(names)
             import itertools
             for vals in itertools.product(*doms):
-                sub = CEval(dict(self.env, **dict(zip(names, vals))), self.olds, snapshots=self.snapshots)
+                b2 = dict(self.bound, **dict(zip(names, vals)))
+                sub = CEval(dict(self.env, **dict(zip(names, vals))), self.olds, snapshots=self.snapshots, bound=b2)
                 try:
                     r = bool(sub.ev(lam.body))
                 except Undefined:
@@ -192,11 +194,14 @@ class CEval:
             return self.truth(n.args[0]) == self.truth(n.args[1])
         if f == 'ite':
             return self.ev(n.args[1]) if self.truth(n.args[0]) else self.ev(n.args[2])
+        if f == 'using':
+            return self.ev(n.args[1])
         if f in MACROS:
             params, body = MACROS[f]
             node = parse(body)
             args = [self.ev(a) for a in n.args]
-            sub = CEval(dict(self.env, **dict(zip(params, args))), self.olds, snapshots=self.snapshots)
+            b2 = dict(self.bound, **dict(zip(params, args)))
+            sub = CEval(dict(self.env, **dict(zip(params, args))), self.olds, snapshots=self.snapshots, bound=b2)
             return sub.ev(node)
         fn = SPEC.get(f)
         if fn is None:
@@ -321,11 +326,24 @@ SPEC = {
     'dsize': lambda ev, d: len(d), 'skey': lambda ev, d, i: sorted(d)[i] if 0 <= i < len(d) else _undef(),
     'joined': lambda ev, l: b''.join(l), 'bisect_right': s_bisect_right,
     'fresh_since': lambda ev, r: True, 'allocated': lambda ev, r: True,
+    'match_shift': lambda ev, *a: True,
+    'isregex': lambda ev, v: hasattr(v, 'search') and hasattr(v, 'pattern'),
+    'rx_pattern': lambda ev, v: v.pattern,
+    'rx_found': lambda ev, v, buf: v.search(buf, 0) is not None,
+    'rx_start': lambda ev, v, buf: _m(v, buf).start(), 'rx_end': lambda ev, v, buf: _m(v, buf).end(),
+    'using': None,
 }
 
 
 def _undef():
     raise Undefined('undefined')
+
+
+def _m(v, buf):
+    m = v.search(buf, 0)
+    if m is None:
+        raise Undefined('no match')
+    return m
 
 
 def _getslot(p, n):
@@ -375,23 +393,9 @@ def holds(src, env, olds=None, snapshots=None):
         return None, str(e)
 
 
-def collect_olds(clauses, env):
-    """evaluate every old(...) sub-expression of the (macro-expanded) clauses in the pre-state"""
-    prepared = []
-    for src in clauses:
-        node = expand_macros(parse(src))
-        olds = {}
-        for o in old_nodes(node):
-            if has_free_quant_var(node, o.args[0]):
-                continue
-            try:
-                olds[id(o)] = copy.deepcopy(CEval(env, None).ev(o.args[0]))
-            except Undefined:
-                pass
-            except Exception:
-                pass
-        prepared.append((src, node, olds))
-    return prepared
+def collect_olds(clauses, env_old):
+    """prepare clauses: old(...) is evaluated lazily in the deep-copied pre-state environment"""
+    return [(src, parse(src), env_old) for src in clauses]
 
 
 def eval_prepared(node, env, olds, snapshots):
@@ -431,8 +435,14 @@ def run_case(contract, fn, args, quant_old=True):
     post_clauses = list(contract['ensures'])
     raise_clauses = {c: list(v) for c, v in contract['raises'].items()}
     snaps = {id(v): snapshot(v) for v in args.values() if hasattr(v, '__dict__')}
-    prep_post = collect_olds(post_clauses, env)
-    prep_raise = {c: collect_olds(v, env) for c, v in raise_clauses.items()}
+    try:
+        memo = {}
+        env_old = copy.deepcopy(env, memo)
+        env_old['__memo__'] = memo
+    except Exception:
+        env_old = dict(env)
+    prep_post = collect_olds(post_clauses, env_old)
+    prep_raise = {c: collect_olds(v, env_old) for c, v in raise_clauses.items()}
     call_args = []
     kw = {}
     for name, v in args.items():
